@@ -3,6 +3,7 @@ package props
 import (
 	"fmt"
 	"reflect"
+	"sort"
 	"strings"
 
 	"verifharness/core"
@@ -451,7 +452,7 @@ func (p c02) Run(c *core.Ctx) {
 			// a user post-processor that resolves collaborators through the factory from inside its
 			// property / instantiation callbacks (a customised injector): preferably the eager component
 			// that wires the one being processed - a cycle through a looked-up edge
-			lp := &world.LookupPP{Plan: map[string]string{}, When: []string{"after-inst", "properties", "before"}[c.Rng.Intn(3)], Always: true}
+			lp := &world.LookupPP{Plan: map[string]string{}, When: []string{"after-inst", "properties", "before", "early"}[c.Rng.Intn(4)], Always: true}
 			adj := sc.NamedAdj()
 			for i := range sc.Nodes {
 				if c.Rng.Intn(3) != 0 || world.Palette[sc.Nodes[i].Type].Lazy {
@@ -470,6 +471,20 @@ func (p c02) Run(c *core.Ctx) {
 					if _, has := lp.Plan[sc.Nodes[target].DisplayName()]; !has && c.Rng.Intn(2) == 0 {
 						// and back: both directions of the cycle run through looked-up edges
 						lp.Plan[sc.Nodes[target].DisplayName()] = sc.Nodes[i].DisplayName()
+					}
+				}
+			}
+			if lp.When == "early" {
+				// (a lookup issued while an early reference is produced may itself ask for an early reference: one entry
+				// only - two such callbacks waiting for each other's result would be a loop of the processor's own making)
+				keys := make([]string, 0, len(lp.Plan))
+				for k := range lp.Plan {
+					keys = append(keys, k)
+				}
+				sort.Strings(keys)
+				for i, k := range keys {
+					if i > 0 {
+						delete(lp.Plan, k)
 					}
 				}
 			}
